@@ -438,6 +438,8 @@ fn run_history(prop: &str, spec: &WsSpec, ops: &[HOp], root: &Path, scan_first: 
                 if pending_query {
                     queried_before_analysis = true;
                 }
+                // what did_open does: the document is open in the editor from now on
+                live.document_opened(&root.join(file));
                 live.analyze_file(root.join(file), text);
                 cur.insert(file.clone(), text.clone());
                 log.push((file.clone(), text.clone()));
@@ -466,8 +468,10 @@ fn run_history(prop: &str, spec: &WsSpec, ops: &[HOp], root: &Path, scan_first: 
                 if cur.get(file) != Some(d) {
                     continue; // only *unmodified* documents
                 }
+                live.document_opened(&root.join(file));
                 live.analyze_file(root.join(file), d);
                 log.push((file.clone(), d.clone()));
+                live.document_closed(&root.join(file));
                 live.cleanup_file_cache(&root.join(file));
                 disturbed = true;
                 res.count("fault.open_close_unmodified");
@@ -477,13 +481,15 @@ fn run_history(prop: &str, spec: &WsSpec, ops: &[HOp], root: &Path, scan_first: 
                 if cur.get(file) != Some(d) {
                     continue;
                 }
+                live.document_closed(&root.join(file));
                 live.cleanup_file_cache(&root.join(file));
                 disturbed = true;
                 res.count("fault.close_unmodified");
             }
             HOp::Fill { n } => {
+                // (documents the history edited are open in the editor: their buffers may differ from the files on disk)
                 if cur.iter().any(|(f, t)| disk.get(f) != Some(t)) {
-                    continue; // pressure runs keep buffers equal to disk
+                    res.count("fault.cache_pressure_with_unsaved_open_documents");
                 }
                 for i in 0..*n {
                     live.analyze_file(root.join(format!("zz_fill/filler_{}.py", i)), "x = 1\n");
